@@ -69,6 +69,9 @@ pub struct BodyPlan {
     pub abort: Abort,
     /// keep the SendStream and wait for poll_reset after finishing
     pub wait_reset: bool,
+    /// API misuse after the end of the body was submitted: bit 0 = send_data, bit 1 =
+    /// send_trailers, bit 2 = reserve_capacity; each must be refused / have no wire effect
+    pub late_ops: u8,
 }
 
 impl BodyPlan {
@@ -229,7 +232,8 @@ pub fn gen_body(t: &Tape, ws: &WorkSpace, iws_hint: u32, mfs_hint: u32) -> BodyP
         Abort::None
     };
     let wait_reset = ws.wait_reset && t.chance(Lane::Work, 1, 6);
-    BodyPlan { chunks, end, abort, wait_reset }
+    let late_ops = if t.chance(Lane::Work, 1, 6) { 1 + t.draw(Lane::Work, 7) as u8 } else { 0 };
+    BodyPlan { chunks, end, abort, wait_reset, late_ops }
 }
 
 pub fn gen_read(t: &Tape, ws: &WorkSpace) -> ReadPlan {
@@ -571,6 +575,27 @@ pub async fn send_body(ctx: Ctx, name: String, side: u8, mut ss: h2::SendStream<
                     ctx.hist.log(side, sid, || "send_data(len=0, eos=true)".to_string());
                 }
             }
+        }
+        ctx.tick();
+    }
+    if !aborted && plan.late_ops != 0 {
+        // the end of the message has been submitted: nothing more may be accepted for it
+        ctx.hist.probe("late_send_ops_after_end_attempted");
+        if plan.late_ops & 4 != 0 {
+            ss.reserve_capacity(1000);
+            let c = ss.capacity();
+            if c != 0 {
+                ctx.hist.violation(Violation::new("C16", "capacity-after-end", "", format!("stream {} dir {}: capacity() = {} after the end of the body was submitted", sid, dir, c), ctx.hist.step()));
+            }
+        }
+        if plan.late_ops & 1 != 0 {
+            let len = if plan.late_ops & 4 != 0 { 0 } else { 10 };
+            if ss.send_data(fill(dir as u8, sid, off, len), plan.late_ops & 2 == 0).is_ok() {
+                ctx.hist.violation(Violation::new("C04", "send-accepted-after-end", "send_data", format!("stream {} dir {}: send_data accepted after the end of the body had been submitted", sid, dir), ctx.hist.step()));
+            }
+        }
+        if plan.late_ops & 2 != 0 && ss.send_trailers(http::HeaderMap::new()).is_ok() {
+            ctx.hist.violation(Violation::new("C04", "send-accepted-after-end", "send_trailers", format!("stream {} dir {}: send_trailers accepted after the end of the body had been submitted", sid, dir), ctx.hist.step()));
         }
         ctx.tick();
     }
